@@ -66,6 +66,8 @@ def gen_case(rng, tier, idx, shard, nshards):
     gi = idx * nshards + shard
     if gi % 8 == 7:
         return {"property": "C07", "kind": "adapter", "minimizer": ["iminuit", "scipy"][(gi // 8) % 2], "errordef": [1.0, 0.5][(gi // 16) % 2], "seed": int(rng.integers(0, 2**31)), "quartic": bool(rng.random() < 0.4), "npar": int(rng.integers(2, 5)), "fix": bool(rng.random() < 0.4)}
+    if gi % 8 == 4:
+        return gen_multi_case(rng, tier, gi // 8)
     minimizer = ["iminuit", "scipy"][gi % 2]
     ftype = ["xy", "xy", "xy", "hist"][(gi // 2) % 4]
     setup = []
@@ -111,6 +113,81 @@ def gen_case(rng, tier, idx, shard, nshards):
         extras["asymmetric"] = True
         limited = {}
     return {"property": "C07", "kind": "fit", "spec": spec, "setup": setup, "fixed": fixed, "limited": limited, "start": start, "extras": extras, "aux_seed": int(rng.integers(0, 2**31))}
+
+
+# ------------------------------------------------------------------ multi-fit cases (generation)
+# pairs of families with at least one common parameter name (same-named parameters of the members of a MultiFit are one parameter);
+# the truth of a shared parameter is the default of the first family of the pair
+MULTI_PAIRS = [("poly1", "poly2"), ("poly0", "poly1"), ("poly1", "poly1"), ("poly1", "poly3"), ("poly2", "poly2"), ("trig", "expbasis"), ("trig", "trig"),
+               ("exponential", "gausspeak"), ("exponential", "logistic"), ("trig", "gausspeak"), ("exponential", "exponential")]
+
+
+def combined_names(member_names):
+    """parameter names of a multi-fit: member by member, in order of first appearance"""
+    out = []
+    for mn in member_names:
+        for q in mn:
+            if q not in out:
+                out.append(q)
+    return out
+
+
+def is_subsequence(sub, seq):
+    it = iter(seq)
+    return all(q in it for q in sub)
+
+
+def gen_multi_case(rng, tier, mi):
+    """two xy members sharing >= 1 parameter; signatures in random relative order; stratified: 3 of 4 cases have a later member whose own
+    parameter order is NOT a subsequence of the multi-fit's order (its index list into the multi-fit is not increasing)"""
+    minimizer = ["iminuit", "scipy"][mi % 2]
+    want_nonsub = (mi // 2) % 4 != 3
+    want_fixed = (mi // 8) % 3 == 1
+    for _attempt in range(200):
+        fams = list(MULTI_PAIRS[int(rng.integers(0, len(MULTI_PAIRS)))])
+        truth_by_name = {}
+        for fam in fams:  # first family of the pair decides the truth of a shared parameter
+            m0 = Model(fam)
+            for q, v in zip(m0.pnames, m0.defaults):
+                truth_by_name.setdefault(q, float(v))
+        if rng.random() < 0.5:
+            fams = fams[::-1]
+        orders = [[int(i) for i in rng.permutation(len(Model(fam).pnames))] for fam in fams]
+        mnames = [[Model(fam).pnames[i] for i in o] for fam, o in zip(fams, orders)]
+        comb = combined_names(mnames)
+        nonsub = not is_subsequence(mnames[1], comb)
+        if want_fixed and len(comb) < 3:
+            continue
+        if not want_nonsub or nonsub:
+            break
+    true_by_name = {q: float(np.round(v * rng.uniform(0.93, 1.07), 6)) for q, v in truth_by_name.items()}
+    members = []
+    for j, (fam, o) in enumerate(zip(fams, orders)):
+        dflt = [truth_by_name[q] for q in mnames[j]]
+        m = Model(fam, order=o, defaults=dflt, name="%s_member%d" % (fam, j))
+        npts = int(rng.integers(len(m.pnames) + 3, 12))
+        x = gen.gen_x(rng, npts)
+        ptrue = [true_by_name[q] for q in m.pnames]
+        y = m.f(np.array(x), ptrue)
+        y = y + rng.normal(size=npts) * 0.04 * (np.abs(y).mean() + 0.1)
+        spec = {"type": "xy", "model": m.spec(), "cost": "chi2", "x": x, "y": [float(np.round(v, 5)) for v in y], "minimizer": minimizer, "dea": "nonlinear"}
+        ys = float(np.mean(np.abs(spec["y"])) + 0.3)
+        setup = [gen.gen_source(rng, npts, "xy", "e0", yscale=ys * 0.5, force={"axis": "y", "reference": "data", "kind": "simple", "shape": "vec", "relative": False, "corr": 0.0})]
+        r = rng.random()
+        if r < 0.15:
+            setup.append(["add_error", {"axis": "y", "err": float(np.round(rng.uniform(0.03, 0.08), 4)), "relative": True, "reference": "model", "corr": 0.0, "name": "e1"}])
+        elif r < 0.3:
+            setup.append(["add_error", {"axis": "x", "err": float(np.round(rng.uniform(0.03, 0.1), 4)), "relative": False, "reference": "data", "corr": 0.0, "name": "e1"}])
+        elif r < 0.5:
+            setup.append(gen.gen_source(rng, npts, "xy", "e1", yscale=ys * 0.4, force={"axis": "y", "reference": "data", "kind": "matrix", "relative": False}))
+        members.append({"spec": spec, "setup": setup})
+    fixed = {}
+    if len(comb) >= 3 and (want_fixed or rng.random() < 0.15):
+        q = comb[int(rng.integers(0, len(comb)))]
+        fixed[q] = float(np.round(truth_by_name[q] * rng.uniform(0.98, 1.02), 5))
+    start = {q: float(np.round(truth_by_name[q] * rng.uniform(0.95, 1.05), 5)) for q in comb if q not in fixed}
+    return {"property": "C07", "kind": "multi", "minimizer": minimizer, "members": members, "fixed": fixed, "start": start,
+            "extras": {"asymmetric": bool(minimizer == "iminuit" and (mi // 2) % 3 == 0)}, "aux_seed": int(rng.integers(0, 2**31))}
 
 
 # ------------------------------------------------------------------ reference helpers
@@ -589,10 +666,225 @@ def run_fit_case(ctx, case):
     return nontrivial
 
 
+# ------------------------------------------------------------------ multi-fit cases
+def run_multi_case(ctx, case):
+    """a MultiFit of xy members with shared parameters: the multi-fit's uncertainties obey the definitions on the joint reference cost (sum of
+    the members' reference costs), and what every member reports afterwards is the part of it that belongs to the member's own parameters,
+    attributed BY NAME (the member's signature order is in general not the multi-fit's order)"""
+    from kafe2.fit import MultiFit
+
+    minimizer = case["minimizer"]
+    ctx.stratum(minimizer)
+    ctx.stratum("multi")
+    ctx.stratum("multi:" + minimizer)
+    mbs = [Member(dict(m["spec"], minimizer=minimizer), m["setup"]) for m in case["members"]]
+    mnames = [list(mb.ref.model.pnames) for mb in mbs]
+    multi = MultiFit([mb.fit for mb in mbs], minimizer=minimizer)
+    names = list(multi.parameter_names)
+    if sorted(names) != sorted(combined_names(mnames)) or any(list(mb.fit.parameter_names) != mn for mb, mn in zip(mbs, mnames)):
+        ctx.violation(None, "multi.parameter-names", {"multi": names, "members": mnames, "reported_member_names": [list(mb.fit.parameter_names) for mb in mbs]})
+        return False
+    idx = [[names.index(q) for q in mn] for mn in mnames]  # member position -> multi-fit position, by name
+    ctx.add_to_set("multi.family-pair", "+".join(sorted(mb.ref.model.family for mb in mbs)))
+    ctx.add_to_set("multi.signatures", "|".join(",".join(mn) for mn in mnames))
+    for j in range(1, len(mbs)):
+        if any(b < a for a, b in zip(idx[j], idx[j][1:])):
+            ctx.stratum("multi:member-order-not-subsequence")
+    if all(ix == sorted(ix) for ix in idx):
+        ctx.stratum("multi:member-orders-agree")
+    ctx.stratum("multi:shared-%d" % min(sum(q in mnames[0] for q in mnames[1]), 3))
+    for q, v in case["fixed"].items():
+        multi.fix_parameter(q, v)
+        ctx.stratum("multi:fixed")
+    multi.set_parameter_values(**case["start"])
+    ctx.op("multi.do_fit")
+    try:
+        with time_limit(120):
+            multi.do_fit()
+    except OpTimeout:
+        ctx.discard("do_fit-timeout")
+        return False
+    except Exception as e:
+        if numerical_failure(e):
+            ctx.discard("do_fit-failed-numerically")
+            return False
+        raise
+    p_hat = np.array(multi.parameter_values, dtype=float)
+    free_idx = [i for i, q in enumerate(names) if q not in case["fixed"]]
+
+    def cost(p):
+        try:
+            tot = 0.0
+            for mb, ix in zip(mbs, idx):
+                pm = np.asarray(p, dtype=float)[ix]
+                if not mb.admissible(pm):
+                    return np.inf
+                tot += mb.cost(pm)
+            return tot if np.isfinite(tot) else np.inf
+        except Exception:
+            return np.inf
+
+    c_hat = cost(p_hat)
+    pe = np.array(multi.parameter_errors, dtype=float)
+    if not np.isfinite(c_hat) or not np.all(np.isfinite(pe)) or np.any(pe[free_idx] <= 0):
+        ctx.discard("fit-result-not-usable")
+        return False
+    try:
+        H = ref_hessian(cost, p_hat, free_idx, pe[free_idx])
+    except Exception:
+        ctx.discard("reference-hessian-failed")
+        return False
+    ok, cond = pd_info(H) if np.all(np.isfinite(H)) else (False, np.inf)
+    if not ok or cond > 1e4:
+        ctx.discard("reference-hessian-not-pd-or-ill-conditioned")
+        return False
+    n = len(names)
+    C = np.zeros((n, n))
+    C[np.ix_(free_idx, free_idx)] = 2.0 * np.linalg.inv(H)
+    sig = np.sqrt(np.diag(C))
+    ss = np.where(sig > 0, sig, 1.0)
+    cor_ref = C / np.outer(ss, ss)
+    linear = all(mb.ref.model.linear and not any(o[1].get("reference") == "model" or gen.norm_axis(o[1].get("axis")) == "x" for o in m["setup"]) for mb, m in zip(mbs, case["members"]))
+    nontrivial = len(free_idx) >= 2
+    if linear:
+        tol = 5e-3 if minimizer == "scipy" else max(5e-3, 2e-7 * cond)
+    else:
+        tol = 3e-2 if minimizer == "scipy" else 1e-1
+    d = {"minimizer": minimizer, "linear": linear, "cond": cond, "fixed": case["fixed"], "multi_names": names, "member_names": mnames}
+    nv = sum(ctx._wit_per_key.values())
+    # ---- the multi-fit itself: (a) on the joint cost
+    cm = multi.parameter_cov_mat
+    if cm is None:
+        ctx.violation(None, "multi.cov=2Hinv", dict(d, got=None))
+        return nontrivial
+    cm = np.array(cm, dtype=float)
+    dev = np.abs(cm - C) / np.outer(ss, ss)
+    ctx.check("multi.cov=2Hinv", bool(np.all(dev <= tol)), lambda: dict(d, got=cm, expected=C, max_normalised_deviation=float(dev.max()), tolerance=tol))
+    wk = "multi_cov_dev_%s_%s" % (minimizer, "lin" if linear else "nonlin")
+    ctx.worst[wk] = max(ctx.worst.get(wk, 0.0), float(dev.max()))
+    ctx.check("multi.errors=sqrt-diag", bool(np.all(np.abs(pe - np.sqrt(np.diag(cm))) <= 1e-3 * ss + 1e-12)), lambda: dict(d, errors=pe, sqrt_diag_cov=np.sqrt(np.diag(cm))))
+    cor = multi.parameter_cor_mat
+    if cor is not None:
+        cor = np.array(cor, dtype=float)
+        dd = np.sqrt(np.diag(cm))
+        dd = np.where(dd > 0, dd, 1.0)
+        exp = cm / np.outer(dd, dd)
+        sub = np.ix_(free_idx, free_idx)
+        ctx.check("multi.cor=normalised", bool(np.all(np.abs(cor[sub] - exp[sub]) <= 1e-9)), lambda: dict(d, got=cor, expected=exp))
+    if sum(ctx._wit_per_key.values()) != nv:
+        return nontrivial
+    # ---- every member: its covariance / errors / correlation are the entries of 2 H^-1 that belong to ITS parameters, in ITS order
+    for j, (mb, mn, ix) in enumerate(zip(mbs, mnames, idx)):
+        f = mb.fit
+        dj = dict(d, member=j, member_parameter_names=mn, index_into_multi_fit=ix)
+        sub = np.ix_(ix, ix)
+        Cj, sj, ssj = C[sub], sig[ix], ss[ix]
+        fr = [k for k, q in enumerate(mn) if q not in case["fixed"]]
+        cmj = f.parameter_cov_mat
+        if cmj is None:
+            ctx.violation(None, "multi.member.cov=subblock-by-name", dict(dj, got=None))
+            return nontrivial
+        cmj = np.array(cmj, dtype=float)
+        if cmj.shape != Cj.shape:
+            ctx.violation(None, "multi.member.cov=subblock-by-name", dict(dj, got=cmj, expected=Cj))
+            return nontrivial
+        devj = np.abs(cmj - Cj) / np.outer(ssj, ssj)
+        ctx.check("multi.member.cov=subblock-by-name", bool(np.all(devj <= tol)), lambda: dict(dj, got=cmj, expected=Cj, max_normalised_deviation=float(devj.max()), tolerance=tol, multi_fit_cov=cm))
+        pej = np.array(f.parameter_errors, dtype=float)
+        ctx.check("multi.member.errors=subblock-by-name", bool(pej.shape == sj.shape and np.all(np.abs(pej - sj) <= tol * ssj + 1e-12)), lambda: dict(dj, got=pej, expected=sj, tolerance=tol, multi_fit_errors=pe))
+        ctx.check("multi.member.errors=sqrt-diag", bool(pej.shape == sj.shape and np.all(np.abs(pej - np.sqrt(np.diag(cmj))) <= 1e-3 * ssj + 1e-12)), lambda: dict(dj, errors=pej, sqrt_diag_cov=np.sqrt(np.diag(cmj))))
+        corj = f.parameter_cor_mat
+        if corj is not None:
+            corj = np.array(corj, dtype=float)
+            fs = np.ix_(fr, fr)
+            ddj = np.where(np.diag(cmj) > 0, np.sqrt(np.abs(np.diag(cmj))), 1.0)
+            ctx.check("multi.member.cor=normalised", bool(corj.shape == cmj.shape and np.all(np.abs(corj[fs] - (cmj / np.outer(ddj, ddj))[fs]) <= 1e-9)), lambda: dict(dj, got=corj, expected=cmj / np.outer(ddj, ddj)))
+            ctx.check("multi.member.cor=subblock-by-name", bool(corj.shape == cmj.shape and np.all(np.abs(corj[fs] - cor_ref[sub][fs]) <= 2.0 * tol)), lambda: dict(dj, got=corj, expected=cor_ref[sub], tolerance=2.0 * tol))
+    if sum(ctx._wit_per_key.values()) != nv:
+        return nontrivial
+    # ---- (e) every member's error band: the covariance of the member's parameters (taken by name from the multi-fit's, which was just
+    # compared with the definition) propagated through the member model's analytic parameter derivatives
+    for j, (mb, mn, ix) in enumerate(zip(mbs, mnames, idx)):
+        ctx.op("multi.member.error_band")
+        m = mb.ref.model
+        pm = p_hat[ix]
+        fr = [k for k, q in enumerate(mn) if q not in case["fixed"]]
+        cj = cm[np.ix_(ix, ix)][np.ix_(fr, fr)]
+        xd = np.array(mb.ref.x, dtype=float)
+        lo, hi = xd.min(), xd.max()
+        xs = np.concatenate([np.linspace(lo, hi, 5), [lo - 0.4, hi + 0.7]])
+        try:
+            got = np.array(mb.fit.error_band(xs), dtype=float)
+        except Exception:
+            ctx.violation(None, "multi.member.error_band.no-exception", dict(d, member=j, x=xs, traceback=fmt_exc()))
+            return nontrivial
+        J = m.dfdp(xs, pm)[fr]
+        exp = np.sqrt(np.maximum(np.einsum("in,ij,jn->n", J, cj, J), 0.0))
+        ctx.check("multi.member.error-band", bool(np.all(np.abs(got - exp) <= 2e-3 * np.abs(exp) + 1e-9 * (np.abs(exp).max() + 1e-300))), lambda: dict(d, member=j, member_parameter_names=mn, x=xs, got=got, expected=exp, covariance_of_member_parameters_by_name=cj))
+    if sum(ctx._wit_per_key.values()) != nv:
+        return nontrivial
+    # ---- (c) asymmetric errors of the multi-fit on the joint reference profile; the members report them for their own parameters
+    if case["extras"].get("asymmetric"):
+        ctx.op("multi.asymmetric")
+        try:
+            with time_limit(90):
+                ae = multi.asymmetric_parameter_errors
+        except OpTimeout:
+            ae = None
+            ctx.discard("asymmetric-timeout")
+        except Exception as e:
+            if numerical_failure(e):
+                ae = None
+                ctx.discard("asymmetric-failed-numerically")
+            else:
+                ctx.violation(None, "multi.asymmetric.no-exception", dict(d, traceback=fmt_exc()))
+                return nontrivial
+        if ae is not None:
+            ae = np.array(ae, dtype=float)
+            atol = 3e-2 if minimizer == "iminuit" else 6e-2
+            rises = {}
+
+            def rise_at(i, e):
+                k = (i, float(e))
+                if k not in rises:
+                    r = ref_profile_value(cost, p_hat, free_idx, {i: float(p_hat[i] + e)}, sig)
+                    rises[k] = (r - c_hat) if np.isfinite(r) else None
+                return rises[k]
+
+            def check_rows(obs, rows, ix, extra):
+                for k, i in enumerate(ix):
+                    if i not in free_idx:
+                        ctx.check(obs + ".fixed-zero", bool(np.all(rows[k] == 0) or np.all(np.isnan(rows[k]))), lambda: dict(d, parameter=names[i], got=rows[k], **extra))
+                        continue
+                    for c_, side in ((0, "down"), (1, "up")):
+                        e = rows[k, c_]
+                        if not np.isfinite(e) or e == 0 or abs(e) > 20 * sig[i]:
+                            ctx.discard("asymmetric-error-not-usable")
+                            continue
+                        rs = rise_at(i, e)
+                        if rs is None:
+                            ctx.discard("reference-profile-not-finite")
+                            continue
+                        ctx.check(obs, abs(rs - 1.0) <= atol and (e < 0 if side == "down" else e > 0), lambda: dict(d, parameter=names[i], side=side, error=float(e), reference_rise=rs, tolerance=atol, multi_fit_asymmetric_errors=ae, **extra))
+
+            check_rows("multi.asymmetric-rise", ae, list(range(n)), {})
+            if sum(ctx._wit_per_key.values()) != nv:
+                return nontrivial
+            for j, (mb, mn, ix) in enumerate(zip(mbs, mnames, idx)):
+                aej = np.array(mb.fit.asymmetric_parameter_errors, dtype=float)
+                if aej.shape != (len(mn), 2):
+                    ctx.violation(None, "multi.member.asymmetric-rise", dict(d, member=j, got=aej))
+                    return nontrivial
+                check_rows("multi.member.asymmetric-rise", aej, ix, {"member": j, "member_parameter_names": mn, "member_asymmetric_errors": aej})
+    return nontrivial
+
+
 def run_case(ctx, case):
     ctx.reseed_legacy()
     if case["kind"] == "adapter":
         return run_adapter(ctx, case)
+    if case["kind"] == "multi":
+        return run_multi_case(ctx, case)
     return run_fit_case(ctx, case)
 
 
